@@ -36,6 +36,43 @@ Definition call_eqb (a b : call) : bool :=
 Definition poll_case := (list (Z * status) * list (Z * decision) * list Z * list call)%type.
 Definition chk_poll (c : poll_case) : bool :=
   let '(sts, res, ss, cs) := c in list_eqb call_eqb (calls (update_running_trials sts res ss)) cs.
+(* synchronous scheduler shell: get_top_list (hyperband_bracket.py) as the promotion rule *)
+Definition valid_of (rung : list slot) : list (Z * Q) :=
+  flat_map (fun s : slot => match s with (Some t, Some (MVal v)) => [(t, v)] | _ => [] end) rung.
+Definition invalid_of (rung : list slot) : list Z :=
+  flat_map (fun s : slot => match s with (Some t, Some MNaN) => [t] | _ => [] end) rung.
+Fixpoint ins_by (le : Q -> Q -> bool) (x : Z * Q) (l : list (Z * Q)) : list (Z * Q) :=
+  match l with [] => [x] | y :: r => if le (snd y) (snd x) then y :: ins_by le x r else x :: y :: r end.
+Definition sort_by (le : Q -> Q -> bool) (l : list (Z * Q)) : list (Z * Q) := fold_left (fun acc x => ins_by le x acc) l [].
+Definition promote_top (is_max : bool) (rung : list slot) (n : nat) : list Z :=
+  let valid := valid_of rung in
+  if Nat.leb n (length valid) then
+    map fst (firstn n (sort_by (if is_max then (fun a b => Qleb b a) else Qleb) valid))
+  else map fst valid ++ firstn (n - length valid) (invalid_of rung).
+Definition sobs_eqb (a b : sobs) : bool :=
+  match a, b with
+  | OSuggest r l, OSuggest r' l' => opt_eqb Z.eqb r r' && (l =? l')
+  | ONoSuggestion, ONoSuggestion | ONothing, ONothing => true
+  | ODecision d, ODecision d' => decision_eqb d d'
+  | _, _ => false
+  end.
+(* index of the first event whose observable answer differs; -1 none; -2-i model error at event i *)
+Fixpoint shell_diff (prom : list slot -> nat -> list Z) (rungs : list (list (nat * Z))) (st : shell)
+         (evs : list (sevent * sobs)) (i : Z) : Z :=
+  match evs with
+  | [] => -1
+  | (e, o) :: rest =>
+      if negb (sobs_eqb (shell_observe prom rungs st e) o) then i
+      else match shell_step prom rungs st e with
+           | MOk st' => shell_diff prom rungs st' rest (i + 1)
+           | MError _ => -2 - i
+           end
+  end.
+Definition shell_case := (bool * list (list (nat * Z)) * list (sevent * sobs))%type.
+Definition diag_shell (c : shell_case) : Z :=
+  let '(mx, rungs, evs) := c in shell_diff (promote_top mx) rungs (shell_init rungs) evs 0.
+Definition chk_shell (c : shell_case) : bool := diag_shell c =? -1.
+
 (* end of run: max_failures, all polls of the run, observed outcome (Some t = ValueError naming t) *)
 Definition end_case := (nat * list poll_in * option Z)%type.
 Definition chk_end (c : end_case) : bool :=
@@ -151,11 +188,13 @@ def run_placement(kind, seed, plan, nsteps, workers):
     from syne_tune.backend.trial_status import Trial
     rng = random.Random(seed)
     sch = make_scheduler(kind, seed % 1000)
+    synclog = record_sync(sch) if kind[0].startswith("synchb") else None
     t0 = datetime.datetime(2020, 1, 1)
     trials, life = {}, {}
     next_id = 0
     problems, failed, failed_cfg = [], [], []
     stats = dict(errors=0, resumes_after_failure=0, steps=0, suggest_none=0)
+    plan0 = [list(p) for p in plan]
     plan = [list(p) for p in plan]
     counters = dict(started=0, resumed=0)
     call_name = ["?"]
@@ -272,6 +311,9 @@ def run_placement(kind, seed, plan, nsteps, workers):
                 do_fail(tid, "between_reports")
     except Exception as e:  # any exception from a scheduler call
         problems.append(("exception", call_name[0], type(e).__name__, str(e)[:160]))
+    if synclog is not None and plan is not None:
+        SHELL_CASES.append((coq_shell_case(sch, kind, synclog),
+                            dict(part="A", kind=list(kind), seed=seed, plan=plan0, nsteps=nsteps, workers=workers)))
     return dict(problems=problems, stats=stats, failed=failed)
 
 
@@ -308,6 +350,46 @@ def directed_same_poll(kind, seed):
     return problems
 
 
+def record_sync(sch):
+    """harness-side recorder around the public callbacks of a synchronous Hyperband scheduler: the event list for
+    model/Failure.v shell_step with the scheduler's observable answers"""
+    log = []
+    o_sug, o_res, o_err = sch.suggest, sch.on_trial_result, sch.on_trial_error
+
+    def suggest(trial_id):
+        sug = o_sug(trial_id)
+        if sug is None:
+            log.append(("SSuggest %s false" % zlit(trial_id), "ONoSuggestion"))
+        else:
+            level = int(sug.config["epochs"])
+            res = "None" if sug.spawn_new_trial_id else "(Some %s)" % zlit(int(sug.checkpoint_trial_id))
+            log.append(("SSuggest %s true" % zlit(trial_id), "OSuggest %s %s" % (res, zlit(level))))
+        return sug
+
+    def on_trial_result(trial, result):
+        d = o_res(trial, result)
+        log.append(("SReport %s %s %s" % (zlit(int(trial.trial_id)), zlit(int(result["epoch"])), q(result["m"])),
+                    "ODecision %s" % d))
+        return d
+
+    def on_trial_error(trial):
+        o_err(trial)
+        log.append(("SFail %s" % zlit(int(trial.trial_id)), "ONothing"))
+
+    sch.suggest, sch.on_trial_result, sch.on_trial_error = suggest, on_trial_result, on_trial_error
+    return log
+
+
+def coq_shell_case(sch, kind, log):
+    mode_max = (kind[2] if kind[0] == "synchb" and len(kind) > 2 else (kind[1] if kind[0] == "synchb_custom" else "min")) == "max"
+    rungs = lst([lst(["(%s, %s)" % (natlit(int(sz)), zlit(int(lv))) for (sz, lv) in br]) for br in sch.bracket_manager.bracket_rungs])
+    evs = lst(["(%s, %s)" % (e, o) for e, o in log]) if log else "[]"
+    return "(%s, %s, %s)" % (blit(mode_max), rungs, evs)
+
+
+SHELL_CASES = []     # (coq term, replay case) collected by parts A and S for the synchronous schedulers
+
+
 def staged_sync(kind, seed):
     """Synchronous Hyperband / DEHB, first bracket, rung by rung (as the seeded demo, randomised): the rung is
     filled with jobs, a random subset of the pending jobs fails (on_trial_error) interleaved with the reports of
@@ -317,6 +399,7 @@ def staged_sync(kind, seed):
     from syne_tune.backend.trial_status import Trial
     rng = random.Random(seed)
     sch = make_scheduler(kind, seed % 1000)
+    synclog = record_sync(sch) if kind[0].startswith("synchb") else None
     t0 = datetime.datetime(2020, 1, 1)
     problems, trials, failed = [], {}, set()
     stats = dict(errors=0, stages=0, resumes=0)
@@ -410,6 +493,8 @@ def staged_sync(kind, seed):
                 members = new_members
     except Exception as e:
         problems.append(("exception", call[0], type(e).__name__, str(e)[:160]))
+    if synclog is not None:
+        SHELL_CASES.append((coq_shell_case(sch, kind, synclog), dict(part="S", kind=list(kind), seed=seed)))
     return dict(problems=problems, stats=stats)
 
 
@@ -868,6 +953,20 @@ def _run(ctx, replay):
         for i in ctx.coq_bad_cases("end", IMPORTS, PRELUDE, "chk_end", ends_coq, shard=300):
             ctx.violation("correspondence", "model/Failure.v run_end differs from the Tuner's end of run: %r" % (ends_meta[i],),
                           case=ends_meta[i], failing_input=False, broken="correspondence chk_end (model/Failure.v run_end)")
+
+    # ---------------- synchronous scheduler shell against model/Failure.v shell_step -----------------------
+    if SHELL_CASES:
+        terms = [c for c, _ in SHELL_CASES]
+        ctx.h("shell_cases", "count", len(terms))
+        bad = ctx.coq_bad_cases("shell", IMPORTS, PRELUDE, "chk_shell", terms, shard=12)
+        if bad:
+            diag = ctx.coq_eval("shelldiag", IMPORTS, PRELUDE, ["diag_shell %s" % terms[i] for i in bad[:4]])
+            for i, d in zip(bad[:4], diag):
+                ctx.violation("correspondence", "model/Failure.v shell_step differs from the synchronous Hyperband scheduler: "
+                              "shell_diff = %s (>=0 index of the first event with a different answer, <=-2 model error at "
+                              "event -2-i)" % d, case=SHELL_CASES[i][1], failing_input=False,
+                              broken="correspondence chk_shell (model/Failure.v shell_step / shell_observe)")
+        del SHELL_CASES[:]
 
     # ---------------- (C) asynchronous Hyperband + GP searcher against model/SearcherData.v ------------
     if replay is None or replay.get("part") == "C":
